@@ -420,3 +420,71 @@ func TestStressStandby(t *testing.T) {
 		return nil
 	})
 }
+
+// The threshold counts from the start of the call, also for a standby secondary that
+// finished early: with threshold T, a secondary that finished at s < T and a primary that
+// answers at p in (T, s+T), the secondary's answer must be released at T and win.
+// Real timers are involved, so the verdict is only taken when the measured times leave
+// no doubt (the primary was released at least 60 ms after start+T); otherwise inconclusive.
+func TestThresholdFromStart(t *testing.T) {
+	man := hx.NewManual(t, false, "timed scenario: always_standby, threshold 300 ms, secondary done at 200 ms, primary done at 500..550 ms; run 6x concurrently")
+	man.Case("threshold-from-start", func(ctx *hx.Ctx) *hx.Failure {
+		type out struct {
+			got            string
+			err            error
+			pReleasedAfter time.Duration
+		}
+		res := make(chan out, 6)
+		for i := 0; i < 6; i++ {
+			go func(i int) {
+				p := &gated{name: "primary", outcome: "answer", gate: make(chan struct{})}
+				s := &gated{name: "secondary", outcome: "answer", gate: make(chan struct{})}
+				m := coremain.NewTestMosdnsWithPlugins(map[string]any{"p": sequence.Executable(p), "s": sequence.Executable(s)})
+				fb, err := fallback.Init(coremain.NewBP("fb", m), &fallback.Args{Primary: "p", Secondary: "s", Threshold: 300, AlwaysStandby: true})
+				if err != nil {
+					res <- out{err: err}
+					return
+				}
+				q := new(dns.Msg)
+				q.SetQuestion("q.c20.test.", dns.TypeA)
+				qCtx := query_context.NewContext(q)
+				start := time.Now()
+				var pAt time.Duration
+				go func() { time.Sleep(200 * time.Millisecond); close(s.gate) }()
+				go func() {
+					time.Sleep(time.Duration(500+10*i) * time.Millisecond)
+					pAt = time.Since(start)
+					close(p.gate)
+				}()
+				e := fb.(sequence.Executable).Exec(context.Background(), qCtx)
+				time.Sleep(time.Until(start.Add(650 * time.Millisecond)))
+				o := out{err: e, pReleasedAfter: pAt}
+				if e == nil && qCtx.R() != nil {
+					o.got = qCtx.R().Answer[0].(*dns.TXT).Txt[0]
+				}
+				res <- o
+			}(i)
+		}
+		conclusive := 0
+		for i := 0; i < 6; i++ {
+			o := <-res
+			if o.err != nil {
+				return hx.Failf("C20/expected-answer", "%v", o.err)
+			}
+			if o.got == "from-primary" {
+				if o.pReleasedAfter >= 450*time.Millisecond {
+					return hx.Failf("C20/threshold-not-from-start", "always_standby, threshold 300 ms: the secondary finished at 200 ms, the primary only at %v, yet the primary's answer was returned - the standby answer was not released when the threshold passed", o.pReleasedAfter.Round(time.Millisecond))
+				}
+				continue
+			}
+			conclusive++
+		}
+		if conclusive == 0 {
+			ctx.Class("inconclusive:timing")
+		}
+		ctx.Nontrivial("threshold-from-start-a")
+		ctx.Nontrivial("threshold-from-start-b")
+		ctx.Sample(map[string]any{"runs": 6, "secondary_won_at_threshold": conclusive})
+		return nil
+	})
+}
